@@ -192,11 +192,11 @@ def generate(repo):
     o = HEADER.format(tool='declspec.py', src='parse.c (declspec, align_down), type.c (primitive types), codegen.c (align_to)')
     o += 'namespace ChibiVerif.Gen.Declspec\n\n'
     o += '/-- the built-in type-specifier keywords tested in the ladder of `declspec` -/\n'
-    o += 'inductive Kw where\n' + ''.join(f'  | {KW_LEAN[k]}\n' for k, _, _ in kws) + '  deriving DecidableEq, Repr, BEq\n\n'
+    o += 'inductive Kw where\n' + ''.join(f'  | {KW_LEAN[k]}\n' for k, _, _ in kws) + '  deriving DecidableEq, Repr\n\n'
     o += 'def Kw.all : List Kw := [' + ', '.join('.' + KW_LEAN[k] for k, _, _ in kws) + ']\n\n'
     o += 'def Kw.spelling : Kw → String\n' + ''.join(f'  | .{KW_LEAN[k]} => "{k}"\n' for k, _, _ in kws) + '\n'
     o += '/-- the primitive `Type` objects of type.c -/\n'
-    o += 'inductive TyName where\n' + ''.join(f'  | {TY_LEAN[t]}\n' for t in prims) + '  deriving DecidableEq, Repr, BEq\n\n'
+    o += 'inductive TyName where\n' + ''.join(f'  | {TY_LEAN[t]}\n' for t in prims) + '  deriving DecidableEq, Repr\n\n'
     o += 'def TyName.all : List TyName := [' + ', '.join('.' + TY_LEAN[t] for t in prims) + ']\n\n'
     o += 'def TyName.cName : TyName → String\n' + ''.join(f'  | .{TY_LEAN[t]} => "ty_{t}"\n' for t in prims) + '\n'
     o += '/-! counter constants (`enum` in declspec) -/\n'
